@@ -505,6 +505,15 @@ func ruleC02R4(r *Run) {
 		fmt.Sprintf("recover-site census changed: %d converters, %d filters, %d typed — the reviewed census is 2/2/1; a new or removed recover changes which panics reach the verdict", counts["A"], counts["B"], counts["C"]))
 }
 
+// classifyRecoverFn classifies the (single) recover() site of fn.
+func (r *Run) classifyRecoverFn(fn *ssa.Function) (string, string) {
+	cs := r.P.callsTo(fn, "builtin:recover")
+	if len(cs) != 1 {
+		return "", fmt.Sprintf("%d recover() calls", len(cs))
+	}
+	return r.classifyRecover(fn, cs[0].Value())
+}
+
 func (r *Run) classifyRecover(fn *ssa.Function, rv ssa.Value) (string, string) {
 	p := r.P
 	if rv == nil || rv.Referrers() == nil {
